@@ -15,10 +15,14 @@ import (
 // scope run, and whether the listeners behind a failing one still run. The model needs the
 // exact delivery to know when a trigger is over, so it is parametrised by that policy and the
 // policy is MEASURED once per process on two tiny scope trees of the code under test (no
-// generated input involved). A delivery that is none of the twelve recognised combinations
+// generated input involved). A delivery that is none of the recognised combinations (level order x registration order x what follows a failure, or one global
+// registration order)
 // leaves every case unjudged (inconclusive), never a violation.
 type dispatchPolicy struct {
-	known    bool
+	known bool
+	// global: all listeners on the chain (own and inherited) run in the order in which they were
+	// registered, whatever scope they were registered on (ownFirst/lifo are then meaningless)
+	global   bool
 	ownFirst bool // the scope's own listeners run before the inherited ones (nearest ancestor next)
 	lifo     bool // within one scope: last registered first
 	// after a failing listener: stopAll = nothing else runs; stopLevel = the remaining listeners of
@@ -44,8 +48,8 @@ func policy() dispatchPolicy {
 	polOnce.Do(func() {
 		pol = calibrate()
 		if pol.known {
-			hx.Note("listener delivery measured on the code under test: own-first=%v last-registered-first=%v after-a-failing-listener: %s",
-				pol.ownFirst, pol.lifo, afterNames[pol.after])
+			hx.Note("listener delivery measured on the code under test: global-registration-order=%v own-first=%v last-registered-first=%v after-a-failing-listener: %s",
+				pol.global, pol.ownFirst, pol.lifo, afterNames[pol.after])
 		} else {
 			hx.Note("listener delivery of the code under test not recognised (%s): every case is left unjudged", pol.why)
 		}
@@ -59,7 +63,7 @@ func policy() dispatchPolicy {
 func probeTree(ls []struct {
 	level int
 	fail  bool
-}) (seen []int, err error) {
+}, late ...int) (seen []int, err error) {
 	defer func() {
 		if p := recover(); p != nil {
 			err = fmt.Errorf("panic: %v", p)
@@ -99,6 +103,19 @@ func probeTree(ls []struct {
 		}
 	}
 	root, mid := levels[0], levels[1]
+	// late listeners: registered on a level (that already has listeners) after the whole chain exists;
+	// they are numbered len(ls), len(ls)+1, ...
+	for k, lv := range late {
+		id := len(ls) + k
+		levels[lv].On(app.BeforeCloseEvent, func(data interface{}) error {
+			mu.Lock()
+			defer mu.Unlock()
+			if sc, ok := data.(app.Scope); ok && leaf != nil && sc == leaf {
+				seen = append(seen, id)
+			}
+			return nil
+		})
+	}
 	mu.Lock()
 	leaf = levels[2]
 	mu.Unlock()
@@ -194,6 +211,34 @@ func calibrate() dispatchPolicy {
 	}
 	if !found {
 		return dispatchPolicy{why: fmt.Sprintf("failure probe saw listeners %v", got2)}
+	}
+	// probe 3: listeners registered late on the root and on the middle scope. Level by level they run
+	// with their level; in a global registration order they run after everything registered earlier.
+	p3 := []L{{0, false}, {1, false}, {2, false}}
+	got3, err := probeTree(p3, 0, 1) // ids: 0 root, 1 mid, 2 leaf, 3 late root, 4 late mid
+	if err != nil {
+		return dispatchPolicy{why: "late-listener probe: " + err.Error()}
+	}
+	var levelWise []int
+	switch {
+	case !p.ownFirst && !p.lifo:
+		levelWise = []int{0, 3, 1, 4, 2}
+	case !p.ownFirst && p.lifo:
+		levelWise = []int{3, 0, 4, 1, 2}
+	case p.ownFirst && !p.lifo:
+		levelWise = []int{2, 1, 4, 0, 3}
+	default:
+		levelWise = []int{2, 4, 1, 3, 0}
+	}
+	switch {
+	case sameInts(got3, levelWise):
+	case !p.ownFirst && !p.lifo && sameInts(got3, []int{0, 1, 2, 3, 4}):
+		p.global = true
+		if p.after == stopLevel {
+			return dispatchPolicy{why: "global registration order with a per-level stop rule"}
+		}
+	default:
+		return dispatchPolicy{why: fmt.Sprintf("late-listener probe saw listeners %v", got3)}
 	}
 	// the measurement must be repeatable (a randomised delivery is not recognised)
 	for i := 0; i < 3; i++ {
